@@ -186,7 +186,11 @@ def universe(tier):
             add(vec(opt(r))); add(arr(opt(r), 3)); add(cflow(r, STRING)); add(opt(bound(r)))
     # generic derived items
     args = [prim("u8"), prim("u64"), UNIT, STRING, vec(prim("u8")), vec(prim("u32")), vec(STRING), vec(vec(prim("u16"))),
-            inst("P1"), inst("Z16"), inst("D1"), inst("E1"), opt(vec(prim("u64"))), boxs(inst("P1")), arr(prim("u32"), 3), tup(prim("u16"), 2), prim("bool")]
+            inst("P1"), inst("Z16"), inst("D1"), inst("E1"), opt(vec(prim("u64"))), boxs(inst("P1")), arr(prim("u32"), 3), tup(prim("u16"), 2), prim("bool"),
+            # one argument per remaining implementation family: 16-byte unit, tags, ranges with and
+            # without the trailing flag, boxed strings, zero-sized, deep arrays
+            prim("u128"), prim("char"), opt(prim("u32")), bound(prim("u16")), cflow(prim("u8"), STRING), BOXSTR, PH_U8, arr(STRING, 2),
+            rng("RangeToInclusive", prim("u16")), rng("RangeInclusive", prim("u32")), prim("NonZeroU32")]
     gens = []
     for a in args:
         gens += [inst("G1", [a]), inst("W", [a]), inst("GT", [a]), inst("GB", [a]), inst("GN", [a])]
